@@ -75,6 +75,7 @@ func idleFitReq(c *Ctx, isTA *ssa.Function, flows []*flagFlow) Req {
 
 func runC01(c *Ctx) {
 	runC01PodRequest(c)
+	borrow(c, "O10", "C14", "O5", "NodeInfo.{Idle,Used,Releasing}", "the fit test reads NodeInfo.Idle: a function outside the accounting API that changes it (an explanatory helper adding to an alias of Idle) lets later pods of the cycle fit capacity that does not exist")
 	borrow(c, "O8", "C13", "O5", "Commit does not call Discard", "a failing commit must not undo allocations whose bind requests were already emitted: the pods get bound while the session has freed their resources")
 
 	p := c.P
@@ -311,6 +312,34 @@ func runC01Rest(c *Ctx, isTA *ssa.Function) {
 	add := c.Anchor("O4", pkgNodeInfo, "NodeInfo", "addTaskResources")
 	rem := c.Anchor("O4", pkgNodeInfo, "NodeInfo", "removeTaskResources")
 	if add != nil && rem != nil {
+		// O4 (ext.): the GPUs of a pod are left out of the node charge only for a resource-reservation pod (it holds
+		// the device on behalf of the sharers, which are charged through the group path). Any other pod keeps its GPUs.
+		nz := 0
+		for _, fn := range []*ssa.Function{add, rem} {
+			for _, h := range p.deepFind(fn, func(in ssa.Instruction) bool {
+				cc, ok := in.(ssa.CallInstruction)
+				if !ok || calleeOf(cc) == nil || calleeOf(cc).Name() != "SetGPUs" || len(cc.Common().Args) != 2 {
+					return false
+				}
+				k, isK := cc.Common().Args[1].(*ssa.Const)
+				return isK && k.Value != nil && k.Value.ExactString() == "0"
+			}, 2) {
+				nz++
+				isResv := func(s FactSet) bool {
+					_, ok := hasFact(s, func(f Fact) bool {
+						return f.Pol && (isCallNamed(f.T, "IsResourceReservationTask") || isCallNamed(f.T, "IsSharedGPUAllocation"))
+					})
+					return ok
+				}
+				ok := fx.allPathsSatisfy(h.In, isResv)
+				if !ok && len(h.Chain) > 0 {
+					ok = fx.acceptWithExpansion(fx.factsAtDeep(h), isResv)
+				}
+				c.Check(ok, "O4", "DOM", funcKey(fn)+": whole GPUs are left out of the charge only for a resource-reservation pod or a shared-GPU allocation", instrPos(h.In), "IsResourceReservationTask(task.Pod), or a shared-GPU allocation (charged through its GPU group)",
+					"the GPU request of a pod that is not a GPU-reservation pod can be dropped from the node accounting (e.g. every utility pod, which includes the scale-adjuster's scaling pods that really hold GPUs): those GPUs stay idle in the books and are bound again")
+			}
+		}
+		c.Floor("O4", "DOM GPU exemptions", nz, 2)
 		tgt := func(t *Term) bool { return rootParam(t) == 0 && t.Op == "field" }
 		ea, er := extractEffects(fx, add, tgt, statusArm, 0), extractEffects(fx, rem, tgt, statusArm, 0)
 		mism := pairInverse(ea, er)
